@@ -975,11 +975,15 @@ class C10(Prop):
             for s in range(ctx.scale(3, 12)):
                 cases.append({"script": script, "history": hist, "seed": ctx.rng.randrange(1 << 30),
                               "policy": "weighted" if s % 2 == 0 else "pct", "cp": None, "trace": s % 3 == 0})
-        # a post racing with update_settings(): sweep the change point over the whole run, line-level yield points
+        # a post racing with update_settings(), line-level yield points: change-point sweep + random thread weights
         race = {"init": "ok", "body": [["upd"], ["upd"], ["upd"]], "end": ["ret"]}
         rh = ["start", ["set", 1], ["set", 2], ["set", 3], "pend", "join", "get"]
-        for cp in range(60, ctx.scale(300, 420), ctx.scale(3, 1)):
+        for cp in range(60, 300, ctx.scale(8, 2)):
             cases.append({"script": race, "history": rh, "seed": cp, "policy": "pct", "cp": cp, "trace": True})
+        # (one change point rarely puts the post between `if fifo` and `fifo.pop()`; random thread weights do: ~4 % of runs)
+        for _ in range(ctx.scale(250, 2500)):
+            cases.append({"script": race, "history": rh, "seed": ctx.rng.randrange(1 << 30), "policy": "weighted",
+                          "cp": None, "trace": True})
         self._evaluate(cases, res, ctx)
         return res
 
